@@ -232,7 +232,9 @@ static void rowops_step(mzd_t *A) {
     break;
   }
   case 5: {
-    int s = vh_randint(0, m - 1), d = vh_randint(0, m - 1);
+    /* "adding one row to another": source and destination are distinct rows (C13) */
+    if (m < 2) return;
+    int s = vh_randint(0, m - 1), d = (s + vh_randint(1, m - 1)) % m;
     vh_begin(&e, "row_add"); vh_pi(&e, "src", s); vh_pi(&e, "dst", d);
     vh_opnd(&e, "A", 'b', A); vh_pre(&e);
     if (VH_CALL(&e)) mzd_row_add(A, s, d);
@@ -240,7 +242,8 @@ static void rowops_step(mzd_t *A) {
     break;
   }
   case 6: case 7: {
-    int s = vh_randint(0, m - 1), d = vh_randint(0, m - 1), off = pick_col(n);
+    if (m < 2) return;
+    int s = vh_randint(0, m - 1), d = (s + vh_randint(1, m - 1)) % m, off = pick_col(n);
     vh_begin(&e, "row_add_offset"); vh_pi(&e, "src", s); vh_pi(&e, "dst", d); vh_pi(&e, "off", off);
     vh_opnd(&e, "A", 'b', A); vh_pre(&e);
     if (VH_CALL(&e)) mzd_row_add_offset(A, d, s, off);
@@ -441,14 +444,15 @@ static void obs_case(int op, int cap) {
     VH_END(&e); vh_post(&e);
     break;
   }
-  case 6: { /* density with res=1 from (0,0): exact popcount ratio, logged as count per 1e6 */
+  case 6: { /* density is a sampled estimate by design (not named by any listed property): only its range
+               and (through C10) its purity are judged; logged in parts per million */
     mzd_t *A = vh_mk_kind(m, n, RK());
     double d = 0;
     vh_begin(&e, "density");
     vh_opnd(&e, "A", 'i', A); vh_pre(&e);
     if (VH_CALL(&e)) d = mzd_density(A, 1);
     VH_END(&e);
-    e.ret = (long)(d * (double)m * (double)n + 0.5);
+    e.ret = (d >= 0.0 && d <= 1.0) ? (long)(d * 1000000.0) : -1;
     vh_post(&e);
     break;
   }
